@@ -1,7 +1,9 @@
 """C15 - rigid-body fitting reproduces exact placements; torsion setting keeps the
 requested angle and the distances to the axis atoms.
 
-Proof: Coq theorems over R about the arithmetic-generic model Model/Quatfit.v.
+Proof: Coq theorems over R about the arithmetic-generic model Model/Quatfit.v, including the Jacobi
+iteration itself (one rotation = orthogonal similarity, invariant for every pivot sequence and fuel,
+exact exit => the eigen contract of the fit theorem is discharged).
 Tie: the PrimFloat instance of the SAME definitions is executed by vm_compute and
 compared bit-for-bit with pdb2pqr.quatfit (<= 1e-12 where numpy/libm intervene).
 Search: independent numpy oracle on the real code (find_coordinates, qfit,
@@ -20,8 +22,8 @@ META = {
     "technique": (
         "Coq proofs over R (ring/field/nsatz) about an arithmetic-generic Gallina model of quatfit.py "
         "(Record Arith + Section, instantiated with PrimFloat and R) + bit-exact differential execution of "
-        "the PrimFloat instance against the Python code + eigen-solver contract validated per call + "
-        "independent-oracle search on the real code"
+        "the PrimFloat instance against the Python code + Jacobi invariant (proved over R) and eigen-solver contract "
+        "measured per call on the real code's exit state + independent-oracle search on the real code"
     ),
     "level_text": (
         "Proved for ALL inputs over the reals: q2mat of any unit quaternion is a proper rotation (never a mirror "
@@ -32,13 +34,30 @@ META = {
         "proper rotation fixing the axis pointwise, keeps all distances (to both axis atoms in particular); the "
         "(cos,sin) of the dihedral measured by utilities.dihedral after a rotation by theta are those of "
         "phi+theta with the code's sign conventions; +-120 degree tetrahedral rotation lands at squared distance "
-        "3*rho^2. Floating-point error (1e-6 A, 0.05 degrees) and Jacobi convergence are NOT proved: they are "
-        "measured by the search on the real code."
+        "3*rho^2. "
+        "JACOBI (new theorems, over R, all 4x4 inputs): the code's (cscl,sscl) is on the unit circle and is the exact "
+        "annihilating angle (the shortcut branch abs(dma)+abs(bscl)<=abs(dma) is dead over R); one rotation of the "
+        "model, both branches of `if abs(amat[ip][iq]) > 0.0`, is an orthogonal similarity A' = J^T A J of the "
+        "symmetric matrix the code maintains (dvec on the diagonal + STRICT UPPER triangle of amat; the rest of amat "
+        "is never written) with V' = V J, pivot entry 0, trace and Frobenius norm kept, off-diagonal mass down by "
+        "2*a_pq^2; by induction V^T V = V V^T = I and V^T A0 V = current matrix hold after ANY pivot sequence and at "
+        "every exit of the sweep loop for EVERY fuel value; if the off-diagonal part is zero at exit, the columns "
+        "of V are unit eigenvectors with eigenvalues dvec and the column qtrfit takes after the code's ascending "
+        "selection sort (column 3) is a unit maximiser of q^T A0 q - so the eigen contract is a THEOREM in that "
+        "case (C15_jacobi_eigen_contract) and C15_fit_exact_image_jacobi states the exact-image theorem with "
+        "'jacobi stops with zero off-diagonal part' in place of the contract; for inexact exits the residual "
+        "identity |A0 v_k - d_k v_k|^2 = off-diagonal mass of column k <= half the total off-diagonal mass. "
+        "STILL NOT PROVED (validated oracle / measured): convergence (that the off-diagonal mass reaches the "
+        "threshold within the 30 sweeps), the effect of the non-zero threshold 1e-12 on the returned eigenvector "
+        "(known finding C15-F1 lives exactly there: gap-dependent), and all rounding (1e-6 A, 0.05 degrees). These "
+        "are measured on every jacobi call of the search: invariant drift |V^T V - I|, |V^T A0 V - current| in "
+        "binary64, the exit residual onorm/dnorm (distribution in the evidence), and the eigen contract to 1e-9."
     ),
     "level_note": (
         "Trusted: Coq kernel + vm_compute; stdlib real-number axioms; the hand-written model (tied bit-exactly by "
         "differential execution on generated inputs); oracles passed in as values: math.cos/sin/acos, "
-        "numpy.linalg.norm, numpy.inner; Jacobi convergence (contract checked per call at run time); the "
+        "numpy.linalg.norm, numpy.inner; Jacobi CONVERGENCE and the effect of the 1e-12 exit threshold (the invariant and "
+        "the exact-exit case are theorems; exit residual, invariant drift and contract measured per call at run time); the "
         "rounding gap between the R and binary64 instances."
     ),
     "design_ref": "DESIGN.md 4 C15 (and Rot.v parts of C04/C05)",
@@ -57,6 +76,17 @@ THEOREMS = [
     "C15_torsion_addition_angles",
     "C15_tetra_120",
     "C15_nonvacuous",
+    "C15_jacobi_angle_exact",
+    "C15_jacobi_rotation_similarity",
+    "C15_jacobi_plane_orthogonal",
+    "C15_jacobi_rotation_masses",
+    "C15_jacobi_invariant_any_pivots",
+    "C15_jacobi_invariant",
+    "C15_jacobi_exit_exact",
+    "C15_jacobi_eigen_contract",
+    "C15_fit_exact_image_jacobi",
+    "C15_jacobi_exit_residual",
+    "C15_jacobi_nonvacuous",
 ]
 
 ALLOWED_AXIOMS = [
@@ -277,7 +307,9 @@ class Capture:
         def wrapped(amat, nrot):
             snap = copy.deepcopy(amat)
             res = self.orig(amat, nrot)
-            self.calls.append((snap, nrot, copy.deepcopy(res)))
+            # amat is rotated IN PLACE: after the call its strict upper triangle holds the
+            # off-diagonal part at exit (in the unsorted basis)
+            self.calls.append((snap, nrot, copy.deepcopy(res), copy.deepcopy(amat)))
             return res
 
         self.qf.jacobi = wrapped
@@ -365,9 +397,10 @@ def rand_mat4(rng):
     return m, kind
 
 
-def build_corr_cases(ctx, qf, util, mult):
+def build_corr_cases(ctx, qf, util, mult, exit_reports=None):
     rng = ctx.rng
     cases = []
+    exit_reports = exit_reports if exit_reports is not None else []
 
     def add(what, term, expected, mode, data):
         cases.append({"what": what, "term": term, "expected": expected, "mode": mode, "data": data})
@@ -415,7 +448,7 @@ def build_corr_cases(ctx, qf, util, mult):
                 out = "EXC"
         add("find_coordinates", f"F_find_coordinates {n} {cpts(refs)} {cpts(defs)} {cpt(atom)}", out if out == "EXC" else flat(out), "exact", data)
         if cap.calls and k % 2 == 0:
-            amat, nrot, (dvec, vmat) = cap.calls[0]
+            amat, nrot, (dvec, vmat), _final = cap.calls[0]
             _, drel = qf.center(n, defs)
             _, rrel = qf.center(n, refs)
             upper = [amat[i][j] for i in range(4) for j in range(i, 4)]
@@ -435,8 +468,10 @@ def build_corr_cases(ctx, qf, util, mult):
     for _ in range(60 * mult):
         m, kind = rand_mat4(rng)
         nrot = rng.choice([30, 30, 30, 0, 1, 2, 5])
-        dvec, vmat = qf.jacobi(copy.deepcopy(m), nrot)
+        mm = copy.deepcopy(m)
+        dvec, vmat = qf.jacobi(mm, nrot)
         add(f"jacobi ({kind})", f"F_jacobi {cmat4(m)} {nrot}", flat(dvec) + flat(vmat), "exact", {"amat": m, "nrot": nrot})
+        exit_reports.append((jacobi_exit_check(m, nrot, dvec, vmat, mm), m, nrot, kind))
     # qchichange: libm cos/sin and numpy norm passed in
     for _ in range(70 * mult):
         init = gen_coords(rng, 1, rng.choice(["unit", "unit", "pdb", "int"]))[0]
@@ -530,6 +565,8 @@ class ContractMonitor:
         self.reports = []
         self.ncalls = 0
         self.last = None
+        self.exit_stats = ExitStats()
+        self.inv_failures = []
 
     def __enter__(self):
         self.cap.__enter__()
@@ -539,8 +576,13 @@ class ContractMonitor:
             quat, lrot = self.orig_qtrfit(numpoints, defcoords, refcoords, nrot)
             self.ncalls += 1
             if len(self.cap.calls) > k0:
-                amat = self.cap.calls[k0][0]
+                amat, nrot_, (dvec_, vmat_), final_ = self.cap.calls[k0]
                 self.last = self.check(amat, quat)
+                inv = jacobi_exit_check(amat, nrot_, dvec_, vmat_, final_)
+                self.exit_stats.add(inv)
+                self.last["inv"] = inv
+                if inv["why"]:
+                    self.inv_failures.append((inv, amat, nrot_))
             else:
                 self.last = {"ok": False, "why": "jacobi-not-called", "gap": 0.0}
             del self.cap.calls[k0:]
@@ -573,6 +615,114 @@ class ContractMonitor:
         elif (w[3] - lam) / scale > 1e-9:
             why = "not-maximal"
         return {"ok": why is None, "why": why, "gap": gap, "res": res, "lam_deficit": float(w[3] - lam) / scale, "C": C, "w": w}
+
+
+INV_ORTH_TOL = 1e-12  # |V^T V - I|_max
+INV_SIM_TOL = 1e-10  # relative deviation of V^T A0 V from the current matrix (see jacobi_exit_check)
+EXIT_TOL = 1e-12  # the code's own exit test onorm / dnorm
+
+
+def jacobi_exit_check(amat0, nrot, dvec, vmat, amat_final):
+    """The invariant proved in Coq over R (C15_jacobi_invariant: V orthogonal and V^T A0 V = the
+    current matrix [dvec on the diagonal, strict upper triangle of the in-place rotated amat off
+    it], for EVERY fuel value) measured on the real code's outputs at exit, in binary64:
+      orth = |V^T V - I|_max
+      sim  = max( |diag(V^T A0 V) - dvec|_max , | |offdiag(V^T A0 V)|_F - |offdiag(current)|_F | ) / |A0|_max
+             (Frobenius norms: the sort permutes dvec/vmat columns but not amat, norms do not care)
+      res  = onorm/dnorm recomputed from the rotated amat and dvec = the quantity the code tests
+             against 1e-12; the Coq exit theorem C15_jacobi_exit_exact needs it to be 0
+      diag = |V^T A0 V - diag(dvec)|_max / |A0|_max (what qtrfit's consumer sees).
+    'why' is None when fine."""
+    A0 = np.array(amat0, float)
+    A0 = np.triu(A0) + np.triu(A0, 1).T
+    V = np.array(vmat, float)
+    d = np.array([float(x) for x in dvec])
+    F = np.array(amat_final, float)
+    out = {"why": None, "orth": float("inf"), "sim": float("inf"), "diag": float("inf"), "res": None, "off": None}
+    if not (np.all(np.isfinite(V)) and np.all(np.isfinite(d)) and np.all(np.isfinite(A0)) and np.all(np.isfinite(np.triu(F, 1)))):
+        out["why"] = "non-finite"
+        return out
+    scale = float(np.abs(A0).max())
+    inv_scale = 1.0 / scale if scale > 0 else 1.0
+    out["orth"] = float(np.abs(V.T @ V - np.eye(4)).max())
+    M = V.T @ A0 @ V
+    offM = M - np.diag(np.diag(M))
+    off_m = math.sqrt(float((offM * inv_scale * offM * inv_scale).sum()))
+    Fu = np.triu(F, 1) * inv_scale
+    off_f = math.sqrt(2.0 * float((Fu * Fu).sum()))
+    out["sim"] = max(float(np.abs(np.diag(M) - d).max()) * inv_scale, abs(off_m - off_f))
+    out["diag"] = float(np.abs(M - np.diag(d)).max()) * inv_scale
+    onorm = float(sum(abs(F[i][j]) for j in range(4) for i in range(j)))
+    dnorm = float(np.abs(d).sum())
+    out["off"] = off_f
+    if dnorm != 0:
+        out["res"] = onorm / dnorm
+    if out["orth"] > INV_ORTH_TOL:
+        out["why"] = "V-not-orthogonal"
+    elif out["sim"] > INV_SIM_TOL:
+        out["why"] = "VtA0V-not-current-matrix"
+    elif any(d[i] > d[i + 1] for i in range(3)):
+        out["why"] = "dvec-not-ascending"
+    elif nrot >= 30 and dnorm != 0 and out["res"] > EXIT_TOL:
+        out["why"] = "not-converged-in-nrot-sweeps"
+    return out
+
+
+class ExitStats:
+    """Distribution of what the Coq theorems leave open: the exit residual onorm/dnorm and the
+    float drift of the invariant."""
+
+    EDGES = [0.0, 1e-300, 1e-100, 1e-50, 1e-40, 1e-30, 1e-25, 1e-20, 1e-18, 1e-16, 1e-15, 1e-14, 1e-13, 1e-12]
+
+    def __init__(self):
+        self.n = 0
+        self.hist = {}
+        self.max_res = 0.0
+        self.max_orth = 0.0
+        self.max_sim = 0.0
+        self.max_diag = 0.0
+        self.res_values = []
+
+    @classmethod
+    def bucket(cls, r):
+        if r is None:
+            return "dnorm=0 (never breaks)"
+        if r == 0.0:
+            return "=0 (exact exit: C15_jacobi_exit_exact applies verbatim)"
+        for e in cls.EDGES[1:]:
+            if r <= e:
+                return f"<={e:g}"
+        return ">1e-12 (sweeps exhausted)"
+
+    def add(self, rep, converged_expected=True):
+        self.n += 1
+        b = self.bucket(rep["res"])
+        self.hist[b] = self.hist.get(b, 0) + 1
+        if rep["res"] is not None and (converged_expected or rep["res"] <= EXIT_TOL):
+            self.max_res = max(self.max_res, rep["res"])
+            self.res_values.append(rep["res"])
+        if math.isfinite(rep["orth"]):
+            self.max_orth = max(self.max_orth, rep["orth"])
+        if math.isfinite(rep["sim"]):
+            self.max_sim = max(self.max_sim, rep["sim"])
+        if math.isfinite(rep["diag"]) and rep["res"] is not None and rep["res"] <= EXIT_TOL:
+            self.max_diag = max(self.max_diag, rep["diag"])
+
+    def summary(self):
+        order = ["=0 (exact exit: C15_jacobi_exit_exact applies verbatim)"] + [f"<={e:g}" for e in self.EDGES[1:]] + [">1e-12 (sweeps exhausted)", "dnorm=0 (never breaks)"]
+        vals = sorted(self.res_values)
+        q = {}
+        if vals:
+            for name, f in (("p50", 0.5), ("p90", 0.9), ("p99", 0.99), ("max", 1.0)):
+                q[name] = vals[min(len(vals) - 1, int(f * (len(vals) - 1) + 0.5))]
+        return {
+            "calls": self.n,
+            "exit_residual_onorm_over_dnorm_hist": {k: self.hist[k] for k in order if k in self.hist},
+            "exit_residual_quantiles": q,
+            "invariant_orth_err_max": self.max_orth,
+            "invariant_VtA0V_minus_current_rel_max": self.max_sim,
+            "converged_VtA0V_minus_diag_rel_max": self.max_diag,
+        }
 
 
 def best_quat_numpy(C):
@@ -671,6 +821,11 @@ def search_fit(ctx, qf, ncases, seeds=()):
             casedata = {"type": "fit", "defs": defs, "refs": refs, "atom": atom, "n": n, "R": fc["R"], "T": fc["T"], "kind": fc["kind"], "theta": fc["theta"], "offset": fc["offset"]}
             if not (err <= TOL_POS):
                 sig = classify_fit(fc, got, last)
+                if sig.get("condition") == "early-stop-near-collinear" and last is not None and last.get("inv"):
+                    # where the known finding lives: non-zero exit residual x tiny top eigenvalue gap
+                    ctx.cov.setdefault("known_F1_exit_residual_vs_gap", [])
+                    if len(ctx.cov["known_F1_exit_residual_vs_gap"]) < 5:
+                        ctx.cov["known_F1_exit_residual_vs_gap"].append({"placement_error_A": err, "exit_residual_onorm_over_dnorm": last["inv"]["res"], "top_eigenvalue_gap_rel": last["gap"], "template_conditioning": s})
                 ctx.fail(sig, f"find_coordinates misses the exact rigid image by {err:.3g} A (template conditioning {s:.2g}, offset {fc['offset']:g})", dict(casedata, observed=None if got is None else list(map(float, got)), expected=exp.tolist(), error=err))
             # eigen-solver contract for this call
             if last is not None and not last["ok"]:
@@ -715,9 +870,22 @@ def search_fit(ctx, qf, ncases, seeds=()):
             ctx.count(f"proper:{mode}")
             if bad:
                 ctx.fail({"site": "quatfit.qfit", "field": "rotation-matrix", "condition": bad}, f"qfit returned a matrix that is not a proper rotation ({bad}) for a {mode} structure", {"type": "proper", "defs": defs, "refs": refs.tolist(), "n": n})
+    # Jacobi invariant at exit, every qtrfit call of this search (exact-image, equivariance, noisy/mirrored)
+    report_exit_failures(ctx, mon.inv_failures)
     ctx.cov["contract_calls_checked"] = mon.ncalls
     ctx.cov["worst_placement_error_A"] = worst
     ctx.cov["worst_placement_error_wellconditioned_A"] = worst_well
+    return mon.exit_stats
+
+
+def report_exit_failures(ctx, fails):
+    for inv, amat, nrot in fails[:10]:
+        ctx.fail(
+            {"site": "quatfit.jacobi", "field": "invariant", "condition": inv["why"]},
+            f"jacobi exit state violates the invariant proved over R ({inv['why']}): |VtV-I|={inv['orth']:.3g}, "
+            f"rel. deviation of VtA0V from the current matrix={inv['sim']:.3g}, exit residual onorm/dnorm={inv['res']}",
+            {"type": "jacobi", "amat": amat, "nrot": nrot},
+        )
 
 
 # --------------------------------------------------------------------------
@@ -1054,7 +1222,8 @@ def run(ctx):
     # ---- correspondence
     corr_broken = False
     with np.errstate(all="ignore"):
-        cases = build_corr_cases(ctx, qf, util, mult)
+        exit_reports = []
+        cases = build_corr_cases(ctx, qf, util, mult, exit_reports)
         for c in seeds_fit:
             out = flat(qf.find_coordinates(c["n"], c["refs"], c["defs"], c["atom"]))
             cases.insert(0, {"what": "find_coordinates (corpus)", "term": f"F_find_coordinates {c['n']} {cpts(c['refs'])} {cpts(c['defs'])} {cpt(c['atom'])}", "expected": out, "mode": "exact", "data": {k: c[k] for k in ("refs", "defs", "atom", "n")}})
@@ -1081,7 +1250,19 @@ def run(ctx):
     boost = 6 if (not ok or corr_broken) else 1
     nfit = (20000 if ctx.thorough else 2500) * boost
     ntors = (20000 if ctx.thorough else 2500) * boost
-    search_fit(ctx, qf, nfit, seeds_fit)
+    exit_stats = search_fit(ctx, qf, nfit, seeds_fit)
+    # arbitrary 4x4 matrices of the correspondence stage (incl. nrot < 30: fuel exhaustion - the
+    # invariant is proved for every fuel value, convergence is only demanded for nrot = 30)
+    arb = ExitStats()
+    for rep, m, nrot, kind in exit_reports:
+        arb.add(rep, converged_expected=nrot >= 30)
+        ctx.evaluated(("jacobi-exit", kind, nrot, len(arb.res_values)), kind not in ("diag", "zero"))
+    # convergence within 30 sweeps is demanded of the qtrfit matrices only (above); for arbitrary
+    # matrices it is counted, the invariant itself (orthogonality, similarity, ordering) is demanded
+    report_exit_failures(ctx, [(rep, m, nrot) for rep, m, nrot, kind in exit_reports if rep["why"] and rep["why"] != "not-converged-in-nrot-sweeps"])
+    ctx.cov["jacobi_arbitrary_matrices_not_converged_in_30_sweeps"] = sum(1 for rep, m, nrot, kind in exit_reports if rep["why"] == "not-converged-in-nrot-sweeps")
+    ctx.cov["jacobi_exit_qtrfit_calls"] = exit_stats.summary()
+    ctx.cov["jacobi_exit_arbitrary_matrices"] = arb.summary()
     search_torsion(ctx, util, ntors)
     search_tetra(ctx, util, (4000 if ctx.thorough else 500) * boost)
     try:
@@ -1092,11 +1273,15 @@ def run(ctx):
     fcs = gen_fit_case(ctx.rng, "bonded")
     ctx.sample({"fit_case": {k: fcs[k] for k in ("defs", "refs", "atom", "theta", "offset")}, "impl": list(map(float, qf.find_coordinates(3, fcs["refs"], fcs["defs"], fcs["atom"]))), "oracle": (np.array(fcs["R"]) @ np.array(fcs["atom"]) + np.array(fcs["T"])).tolist()})
     ctx.sample({"correspondence_term": cases[130]["term"][:400], "expected_hex": [float(x).hex() for x in cases[130]["expected"]][:6] if cases[130]["expected"] != "EXC" else "EXC"})
+    ctx.sample({"obligation": "C15_jacobi_invariant: wf4 am |- let st := jsweeps nrot (jinit am) in wfst st /\\ orth (st_V st) /\\ meq (V^T (A0_of am) V) (st_sym st)   (every nrot)"})
     ctx.sample({"obligation": "C15_fit_exact_image: unit p, non-collinear template, eigen contract |- find_coordinates (length defs) (map (rigid (q2mat p) T) defs) defs atom = Some (rigid (q2mat p) T atom)"})
     ctx.trusted += [
         "oracles (values passed into the model, never modelled): math.cos, math.sin, math.acos, numpy.linalg.norm, numpy.inner",
-        "eigen-solver contract (unit maximiser of q^T C q) is a HYPOTHESIS of C15_fit_exact_image / C15_fit_equivariant; it is checked "
-        "numerically on every qtrfit call of the search (|q|=1, residual, maximality vs numpy.linalg.eigvalsh), Jacobi convergence is not proved",
+        "eigen-solver contract (unit maximiser of q^T C q): a THEOREM when the Jacobi iteration stops with zero off-diagonal part "
+        "(C15_jacobi_eigen_contract, C15_fit_exact_image_jacobi); otherwise a HYPOTHESIS of C15_fit_exact_image / C15_fit_equivariant, checked "
+        "numerically on every qtrfit call of the search (|q|=1, residual, maximality vs numpy.linalg.eigvalsh)",
+        "Jacobi CONVERGENCE within 30 sweeps and the effect of the non-zero exit threshold 1e-12 are NOT proved; measured per call: exit residual "
+        "onorm/dnorm (coverage.jacobi_exit_*), drift of the proved invariant (|V^T V - I|, |V^T A0 V - current matrix|) in binary64",
         "rounding gap between the real-number instance (theorems) and the binary64 instance (execution) is not proved; "
         "the tolerances 1e-6 A / 0.05 degrees are measured by the search on the real code",
         "modelled, not verified: quatfit.py, utilities.dihedral (hand model Model/Quatfit.v, tied bit-exactly on generated cases)",
@@ -1153,6 +1338,12 @@ def replay(ctx, data):
             d = ({"condition": "exception"}, str(e))
         print("replay:", ("FAILS: " + d[1]) if d else "passes")
         return 1 if d else 0
+    if t == "jacobi":
+        mm = copy.deepcopy(case["amat"])
+        dvec, vmat = qf.jacobi(mm, case["nrot"])
+        rep = jacobi_exit_check(case["amat"], case["nrot"], dvec, vmat, mm)
+        print("replay:", "FAILS" if rep["why"] else "passes", {k: rep[k] for k in ("why", "orth", "sim", "res")})
+        return 1 if rep["why"] else 0
     if t == "corr":
         print("replay: correspondence case", case.get("what"), "- rerun ./check C15 to re-evaluate the model against the code")
         return 1
